@@ -72,6 +72,8 @@ def affine_transform(matrix: npt.ArrayLike | None = None, offset: npt.ArrayLike 
         offset = np.asarray(offset)
         n = offset.shape[0] + 1
         dtype = offset.dtype
+    else:
+        dtype = np.result_type(offset)
 
     if matrix is not None:
         matrix = np.asarray(matrix)
